@@ -1,4 +1,5 @@
 import Proofs.C12
+import Proofs.C12Entry
 import GoawkModel.C12Sites
 /-!
 # C12 — NoExec, NoFileWrites and NoFileReads confine every program
@@ -270,5 +271,204 @@ example : (step exNoFlags (St.init [[105]] [] 0) (.getlineFile [105])).1 = (step
   (open_effects_depend_on_answer_only _ _ _ _ true rfl rfl (by decide)).1
 -- … and a different answer gives different effects (the answer does matter)
 example : (step exNoFlags (St.init [[105]] [] 0) (.getlineFile [105])).1 ≠ (step exNoFlags (St.init [] [] 0) (.getlineFile [105])).1 := by decide
+
+/-! ### every entry point: ExecProgram, Execute, ExecuteContext (Background, TODO, any other context) -/
+
+def exReadsOnlyN : Flags := { noExec := false, noWrites := false, noReads := true, hook := true }
+def exHookN : Flags := { noExec := false, noWrites := false, noReads := false, hook := true }
+def exAllN : Flags := { noExec := true, noWrites := true, noReads := true, hook := false }
+
+theorem report_ne_finished (e : Entry) (d : Bool) (err : Err) : report e d err ≠ .finished := by
+  unfold report; split <;> simp
+
+/-- `executeAll`'s effect groups are `trace`'s over BEGIN's operations, the pattern-action loop, END's operations: the model the
+differential runs validate is the one the confinement theorems are about. -/
+theorem executeAll_groups_eq_trace (e : Entry) (d : Bool) (f : Flags) (s : St) (p : Phases) (h : p.hasRest = true) :
+    (executeAll e d f s p).1 = trace f s (p.begin ++ .mainLoop :: p.endOps) := by
+  have hcons : (IoOp.mainLoop :: p.endOps) = [IoOp.mainLoop] ++ p.endOps := rfl
+  rw [trace_append, hcons, trace_append, ← runOps_groups f _ p.endOps]
+  unfold executeAll
+  rcases h1 : runOps f s p.begin with ⟨g1, s1, r1⟩
+  cases r1 with
+  | some err => simp
+  | none =>
+    simp only [h, Bool.not_true, Bool.false_eq_true, if_false]
+    rcases h2 : runOps f s1 [.mainLoop] with ⟨g2, s2, r2⟩
+    cases r2 with
+    | some err => simp
+    | none =>
+      simp only
+      rcases h3 : runOps f s2 p.endOps with ⟨g3, s3, r3⟩
+      cases r3 <;> simp
+
+/-- "Each attempt ends the run with an error" through every entry point and whatever the state of the context: the run
+reports success exactly when no operation of BEGIN, the pattern-action loop or END produced a run-time error — an error is
+never turned into success, and the phases after it are not run (their groups are absent: `executeAll_groups_eq_trace`). -/
+theorem refusal_ends_run_every_entry (e : Entry) (d : Bool) (f : Flags) (s : St) (p : Phases) :
+    (executeAll e d f s p).2 = .finished ↔ ∀ g ∈ (executeAll e d f s p).1, g.any Effect.isError = false := by
+  unfold executeAll
+  have k1 := runOps_err_iff f s p.begin
+  rcases h1 : runOps f s p.begin with ⟨g1, s1, r1⟩
+  rw [h1] at k1
+  cases r1 with
+  | some err =>
+    simp only at k1 ⊢
+    constructor
+    · intro h; exact absurd h (report_ne_finished _ _ _)
+    · intro h; exact absurd (k1.mpr h) (by simp)
+  | none =>
+    have a1 := k1.mp rfl
+    by_cases hr : p.hasRest = true
+    · simp only [hr, Bool.not_true, Bool.false_eq_true, if_false]
+      have k2 := runOps_err_iff f s1 [.mainLoop]
+      rcases h2 : runOps f s1 [.mainLoop] with ⟨g2, s2, r2⟩
+      rw [h2] at k2
+      cases r2 with
+      | some err =>
+        simp only at k2 ⊢
+        constructor
+        · intro h; exact absurd h (report_ne_finished _ _ _)
+        · intro h
+          exact absurd (k2.mpr (fun g hg => h g (List.mem_append_right _ hg))) (by simp)
+      | none =>
+        have a2 := k2.mp rfl
+        simp only
+        have k3 := runOps_err_iff f s2 p.endOps
+        rcases h3 : runOps f s2 p.endOps with ⟨g3, s3, r3⟩
+        rw [h3] at k3
+        cases r3 with
+        | some err =>
+          simp only at k3 ⊢
+          constructor
+          · intro h; exact absurd h (report_ne_finished _ _ _)
+          · intro h
+            exact absurd (k3.mpr (fun g hg => h g (List.mem_append_right _ hg))) (by simp)
+        | none =>
+          have a3 := k3.mp rfl
+          simp only at a1 a2 a3 ⊢
+          constructor
+          · intro _ g hg
+            rcases List.mem_append.mp hg with hg | hg
+            · rcases List.mem_append.mp hg with hg | hg
+              · exact a1 g hg
+              · exact a2 g hg
+            · exact a3 g hg
+          · intro _; trivial
+    · have hr' : p.hasRest = false := by cases hh : p.hasRest <;> simp_all
+      simp only [hr', Bool.not_false, if_true]
+      simp only at a1
+      exact ⟨fun _ => a1, fun _ => trivial⟩
+
+/-- While the context is live (not cancelled, deadline not reached) the entry point is irrelevant: all five give the same
+effects and the same outcome. -/
+theorem entry_irrelevant_while_context_live (e e' : Entry) (f : Flags) (s : St) (p : Phases) :
+    executeAll e false f s p = executeAll e' false f s p := by
+  simp [executeAll, report]
+
+/-- `ExecProgram`, `Execute`, `ExecuteContext(Background)` and `ExecuteContext(TODO)` never look at the context. -/
+theorem context_irrelevant_without_check (e : Entry) (h : e.checkCtx = false) (d d' : Bool) (f : Flags) (s : St) (p : Phases) :
+    executeAll e d f s p = executeAll e d' f s p := by
+  simp [executeAll, report, h]
+
+/-- Under a live context the error reported is the refused operation's own. -/
+theorem live_context_reports_own_error (e : Entry) (f : Flags) (s : St) (p : Phases) :
+    (executeAll e false f s p).2 ≠ .ctxFailed := by
+  unfold executeAll
+  rcases runOps f s p.begin with ⟨g1, s1, r1⟩
+  cases r1 with
+  | some err => simp [report]
+  | none =>
+    simp only
+    split
+    · simp
+    · rcases runOps f s1 [.mainLoop] with ⟨g2, s2, r2⟩
+      cases r2 with
+      | some err => simp [report]
+      | none =>
+        simp only
+        rcases runOps f s2 p.endOps with ⟨g3, s3, r3⟩
+        cases r3 <;> simp [report]
+
+/-- A refused operation in BEGIN, through every entry point: the run is over — nothing of the pattern-action loop or of END
+happens — and it does not report success. -/
+theorem denied_in_begin_every_entry (e : Entry) (d : Bool) (f : Flags) (s : St) (op : IoOp) (rest : List IoOp) (p : Phases) (err : Err)
+    (hb : p.begin = op :: rest) (hd : denied f s op = some err) :
+    executeAll e d f s p = ([[.error err]], report e d err) := by
+  have h := denied_step f s op err hd
+  simp [executeAll, hb, runOps, h, firstErr]
+
+/-! ### names the operating system or other awks treat specially are file names
+
+The model has exactly three names that are not file names: "-" (read: standard input; written: standard output) and, when
+written and NoFileWrites is off, "/dev/stdout" and "/dev/stderr". Every other byte string — "/dev/stdin", "/dev/fd/3",
+"/proc/self/fd/3", "/dev/tty", "/dev/null", "/inet/tcp/…" — is refused by the flags or handed to the configured open function. -/
+
+def devStdin : Bytes := [47, 100, 101, 118, 47, 115, 116, 100, 105, 110]   -- "/dev/stdin"
+def devFd3 : Bytes := [47, 100, 101, 118, 47, 102, 100, 47, 51]            -- "/dev/fd/3"
+
+theorem read_exception_exact (f : Flags) (n : Bytes) : readDecision f n = .stdin ↔ n = dash := by
+  unfold readDecision
+  by_cases h : n = dash
+  · simp [h]
+  · by_cases h2 : f.noReads = true <;> simp [h, h2]
+
+theorem write_exceptions_exact (f : Flags) (n : Bytes) (m : Mode) :
+    (writeDecision f n m = .stdout ∨ writeDecision f n m = .stderr) ↔
+      (n = dash ∨ (f.noWrites = false ∧ (n = devStdout ∨ n = devStderr))) := by
+  unfold writeDecision
+  by_cases h : n = dash
+  · simp [h]
+  · by_cases h2 : f.noWrites = true
+    · simp [h, h2]
+    · have h2' : f.noWrites = false := by cases hh : f.noWrites <;> simp_all
+      by_cases h3 : n = devStderr
+      · subst h3; simp [h2', show devStderr ≠ dash by decide]
+      · by_cases h4 : n = devStdout
+        · subst h4; simp [h2', show devStdout ≠ dash by decide, show devStdout ≠ devStderr by decide]
+        · simp [h, h2', h3, h4]
+
+/-- `getline < n` for ANY name other than "-" that is not an open stream: refused under NoFileReads (the run ends), otherwise
+exactly one open, through the configured open function, and nothing else — standard input is not touched. -/
+theorem special_names_read_as_files (f : Flags) (s : St) (n : Bytes) (h : find n s.streams = none) (hn : n ≠ dash) :
+    (step f s (.getlineFile n)).1 =
+      if f.noReads then [.error .noFileReads]
+      else if s.existing.contains n then [.open n .rd .configured true, .useStream n .inFile]
+      else [.open n .rd .configured false, .soft] := by
+  simp only [step, inFile, h]
+  by_cases h2 : f.noReads = true
+  · simp [hn, h2]
+  · by_cases h3 : n ∈ s.existing <;> simp [hn, h2, h3]
+
+/-- `print > n` / `print >> n` for any name other than "-", "/dev/stdout", "/dev/stderr" that is not an open stream: refused
+under NoFileWrites, otherwise exactly one open through the configured open function; under NoFileWrites the two /dev names are
+refused as well. -/
+theorem special_names_written_as_files (f : Flags) (s : St) (n : Bytes) (ok : Bool) (h : find n s.streams = none) (hn : n ≠ dash) :
+    (f.noWrites = true → (step f s (.printGt n ok)).1 = [.error .noFileWrites] ∧ (step f s (.printApp n ok)).1 = [.error .noFileWrites]) ∧
+    (f.noWrites = false → n ≠ devStdout → n ≠ devStderr →
+      (step f s (.printGt n ok)).1 =
+        (if ok then [.open n .wrTrunc .configured true, .useStream n .outFile] else [.open n .wrTrunc .configured false, .error .redirect]) ∧
+      (step f s (.printApp n ok)).1 =
+        (if ok then [.open n .wrAppend .configured true, .useStream n .outFile] else [.open n .wrAppend .configured false, .error .redirect])) := by
+  constructor
+  · intro hw
+    simp [step, outFile, h, hn, hw]
+  · intro hw h1 h2
+    cases ok <;> simp [step, outFile, h, hn, hw, h1, h2]
+
+example : (step exReadsOnlyN (St.init [devFd3] [] 2) (.getlineFile devFd3)).1 = [.error .noFileReads] := by decide
+example : (step exHookN (St.init [devFd3] [] 2) (.getlineFile devFd3)).1 = [.open devFd3 .rd .configured true, .useStream devFd3 .inFile] := by decide
+example : (step exReadsOnlyN (St.init [] [devStdin] 2) .mainLoop).1 = [.error .noFileReads] := by decide
+example : (step exReadsOnlyN (St.init [] [] 2) (.printGt devStdin true)).1 = [.open devStdin .wrTrunc .configured true, .useStream devStdin .outFile] := by decide
+example : devFd3 ≠ dash ∧ devStdin ≠ dash ∧ devStdin ≠ devStdout ∧ devStdin ≠ devStderr := by decide
+
+/-! non-vacuity of the entry-point clause -/
+def exPhases : Phases := { begin := [.getlineFile dash, .system [120] true], hasRest := true, endOps := [.printGt [111] true] }
+example : executeAll .ctxOther false exReadsOnlyN (St.init [] [] 1) exPhases =
+    ([[.useStdin], [.exec [120] true], [.useStdin], [.open [111] .wrTrunc .configured true, .useStream [111] .outFile]], .finished) := by decide
+example : executeAll .ctxOther false exAllN (St.init [] [] 1) exPhases = ([[.useStdin], [.error .noExecSystem]], .failed .noExecSystem) := by decide
+example : executeAll .ctxOther true exAllN (St.init [] [] 1) exPhases = ([[.useStdin], [.error .noExecSystem]], .ctxFailed) := by decide
+example : executeAll .execute true exAllN (St.init [] [] 1) exPhases = ([[.useStdin], [.error .noExecSystem]], .failed .noExecSystem) := by decide
+example : denied exAllN (St.init [] [] 1) (.system [120] true) = some .noExecSystem := by decide
+example : (executeAll .ctxOther false exAllN (St.init [] [] 1) { exPhases with begin := [] }).2 = .failed .noFileWrites := by decide
 
 end GoawkModel.C12.Props
